@@ -173,6 +173,35 @@ impl Arena {
     }
 }
 
+#[cfg(not(miri))]
+impl Arena {
+    /// A raw region of `size` bytes ending exactly at the trailing guard page (`size` must be a
+    /// multiple of the alignment wanted). The caller has it to itself until `raw_release`.
+    pub fn raw_end(&mut self, size: usize) -> *mut u8 {
+        assert!(size <= RW, "harness: object larger than the arena");
+        unsafe { self.base.add(RW - size) }
+    }
+
+    /// Check the canaries in front of a region handed out by `raw_end` and restore the pattern
+    /// over region and window. Returns the (negative) offset of the first stray byte, if any.
+    pub fn raw_release(&mut self, size: usize) -> Option<isize> {
+        let all = unsafe { std::slice::from_raw_parts_mut(self.base, RW) };
+        let off = RW - size;
+        let lo = off.saturating_sub(512);
+        let mut stray = None;
+        for i in lo..off {
+            if all[i] != pattern(i) {
+                stray = Some(i as isize - off as isize);
+                break;
+            }
+        }
+        for i in lo..RW {
+            all[i] = pattern(i);
+        }
+        stray
+    }
+}
+
 thread_local! {
     static ARENA: RefCell<Option<Arena>> = const { RefCell::new(None) };
 }
